@@ -15,7 +15,7 @@ ET_BLOCKS = {
     "eco_v2": [(47545, 47571)],              # ARM fw 19 settings (probe 47547 x6)
     "peak_shaving": [(47589, 47594)],        # ARM fw 22 settings (probe 47589 x6)
 }
-DT_BLOCKS = {"meter": [(30195, 30209)]}
+DT_BLOCKS = {"meter": [(30195, 30209)], "meter_version": [(30063, 30082)]}     # (meter data block; meter version/serial probe of read_device_info)
 
 
 def serial_with(tag: str, prefix="9") -> str:
